@@ -70,6 +70,32 @@ def ids_from_c(text, doc, prefix='barectf_'):
     return res
 
 
+def case_twins(d, rng):
+    """Rename one clock type and one event record type per stream to the case-swapped name of a sibling: names that
+    differ only by letter case are distinct identifiers everywhere (YAML, C, TSDL) but collide under any
+    case-insensitive ordering, which would leave their relative order to the hash-seed dependent set iteration."""
+    tt = d['trace']['type']
+    clocks = tt.get('clock-types') or {}
+    names = sorted(clocks)
+    if len(names) >= 2:
+        a, b = rng.sample(names, 2)
+        nb = a.swapcase()
+        if nb != a and nb not in clocks:
+            tt['clock-types'] = {(nb if k == b else k): v for k, v in clocks.items()}
+            for dn in tt['data-stream-types'].values():
+                if dn.get('$default-clock-type-name') == b:
+                    dn['$default-clock-type-name'] = nb
+    for dn in tt['data-stream-types'].values():
+        erts = dn['event-record-types']
+        names = sorted(erts)
+        if len(names) >= 2 and rng.random() < 0.5:
+            a, b = rng.sample(names, 2)
+            nb = a.swapcase()
+            if nb != a and nb not in erts:
+                dn['event-record-types'] = {(nb if k == b else k): v for k, v in erts.items()}
+    return d
+
+
 def coq_str(s):
     return '[' + ';'.join(str(ord(c)) for c in s) + ']'
 
@@ -98,6 +124,8 @@ def run(ctx):
         docs, ncfg = rdocs, len(rdocs)
     while len(docs) < ncfg:
         d = G.gen_config(rng, n_dst=(2, 4), n_ert=(2, 6), n_clk=(2, 3))
+        if len(docs) % 2 == 1:
+            d = case_twins(d, rng)
         if ambiguous(d):
             continue
         # every stream gets a clock so that the clock-types set is really iterated
@@ -238,6 +266,6 @@ def run(ctx):
         'configurations': len(docs), 'hash_seeds': len(seeds), 'permutations_per_configuration': nperm,
         'id_cases_vs_coq_model': len(id_cases), 'id_model_disagreements': len(disagree),
         'file_diffs': nviol,
-        'input_distribution': 'random YAML documents (c14cfg.gen_config): all field type classes, features on/off, environment, log levels; names drawn from a pool with common prefixes / case / digit / underscore variations; API names additionally non-ASCII, empty, combining characters',
+        'input_distribution': 'random YAML documents (c14cfg.gen_config): all field type classes, features on/off, environment, log levels; names drawn from a pool with common prefixes / case / digit / underscore variations; every other document has clock types and event record types whose names differ only by letter case; API names additionally non-ASCII, empty, combining characters',
         'samples': samples,
     })
